@@ -14,7 +14,7 @@ CXX := g++
 CC  := gcc
 
 SAN_plain :=
-SAN_asan  := -fsanitize=address,undefined -fno-sanitize-recover=all -D_GLIBCXX_ASSERTIONS
+SAN_asan  := -fsanitize=address,undefined -fno-sanitize-recover=all -D_GLIBCXX_ASSERTIONS -D_GLIBCXX_SANITIZE_VECTOR
 SAN_tsan  := -fsanitize=thread
 OPT_plain := -O2
 OPT_asan  := -O1
@@ -42,7 +42,7 @@ SIMOBJ_$(1) := $$(patsubst $(V)/sim/%.cc,$(B)/$(1)/sim/%.o,$$(SIM_SRCS))
 $(B)/bxsim-$(1): $$(SUTOBJ_$(1)) $$(SIMOBJ_$(1))
 	@echo "LINK $$@"
 	@$(CXX) $$(SAN_$(1)) -pthread -o $$@.tmp $$^ $$(LINK_$(1)) -lgsl -lgslcblas -ldl && mv $$@.tmp $$@
-$(B)/$(1)/sim/%.o: $(V)/sim/%.cc
+$(B)/$(1)/sim/%.o: $(V)/sim/%.cc $(V)/Makefile
 	@mkdir -p $$(dir $$@)
 	@$(CXX) -std=c++17 $$(OPT_$(1)) $$(if $$(filter %/sched.cc,$$<),$$(filter-out -fsanitize=thread,$$(SAN_$(1))),$$(SAN_$(1))) $(COMMON) $(SUT_INC) -I$(REPO)/programs -DSIM_FLAVOUR_$(1)=1 -DSIM_FLAVOUR_NAME='"$(1)"' -c $$< -o $$@
 -include $$(SUTOBJ_$(1):.o=.d) $$(SIMOBJ_$(1):.o=.d)
@@ -51,7 +51,7 @@ $(foreach f,$(FLAVOURS),$(eval $(call FLAVOUR_RULES,$(f))))
 
 # $(1)=flavour $(2)=source
 define SUT_RULE
-$(B)/$(1)/sut/$(subst /,_,$(patsubst $(REPO)/%,%,$(patsubst $(CFG)/%,cfg/%,$(2)))).o: $(2)
+$(B)/$(1)/sut/$(subst /,_,$(patsubst $(REPO)/%,%,$(patsubst $(CFG)/%,cfg/%,$(2)))).o: $(2) $(V)/Makefile
 	@mkdir -p $$(dir $$@)
 	@$(if $(filter %.c,$(2)),$(CC),$(CXX) -std=$(SUT_STD)) $$(OPT_$(1)) $$(SAN_$(1)) $(COMMON) $(SUT_INC) $(SUT_DEF) $(if $(filter %bxdecay0-run.cxx,$(2)),-Dmain=bxdecay0_run_main) -c $$< -o $$@
 endef
